@@ -419,7 +419,13 @@ func genPlanC12(rt *rapid.T) c12Plan {
 	case "out", "e2e":
 		p.Client2 = rapid.SampledFrom([]string{"tunnel", "router"}).Draw(rt, "client2")
 		for i := 0; i < rapid.IntRange(1, 12).Draw(rt, "events"); i++ {
-			p.Events = append(p.Events, genGEvent(rt))
+			e := genGEvent(rt)
+			p.Events = append(p.Events, e)
+			if rapid.IntRange(0, 5).Draw(rt, "same-event-again") == 0 {
+				for k := 0; k < rapid.IntRange(1, 3).Draw(rt, "same-event-n"); k++ {
+					p.Events = append(p.Events, e)
+				}
+			}
 		}
 	case "in":
 		for i := 0; i < rapid.IntRange(1, 40).Draw(rt, "messages"); i++ {
@@ -445,6 +451,16 @@ func genPlanC12(rt *rapid.T) c12Plan {
 				}
 			}
 			p.Inbound = append(p.Inbound, c)
+			// the bus repeats itself (a switch pressed twice, a sensor sending the same value cyclically): the same
+			// telegram 2..4 times in a row, sometimes with something that does not surface in between
+			if rapid.IntRange(0, 5).Draw(rt, "same-again") == 0 {
+				for k := 0; k < rapid.IntRange(1, 3).Draw(rt, "same-n"); k++ {
+					if rapid.IntRange(0, 3).Draw(rt, "filler") == 0 {
+						p.Inbound = append(p.Inbound, common.GenCemi(rt, rapid.SampledFrom([]string{"ldata-con-app", "ldata-ind-ctl", "ldata-req-app"}).Draw(rt, "filler-kind")))
+					}
+					p.Inbound = append(p.Inbound, c)
+				}
+			}
 		}
 	}
 	return p
